@@ -334,11 +334,26 @@ func (j *judgeCtx) judgeAdmits(tok int64, d *dimension, h *history, admits, reqs
 		}
 		suffix := ""
 		intLimit, has, slot := d.peek(t.peek)
+		// does the slot granularity of the limiter explain the excess by itself?
+		// (the admits inside the narrower window W-slot respect the limit)
+		slotExplains := false
+		if d.rate && slot > 0 && slot < d.w {
+			s2, a2, _, _ := count(d.w - slot)
+			c2 := s2
+			if form == "set" {
+				c2 = a2
+			}
+			slotExplains = c2 <= L
+		}
 		switch {
 		case j.wallStepIn(from, t.e):
 			// a wall-clock step inside the span explains the excess by itself
 			// (checked first: a policy delete in the same span is incidental)
 			suffix = "after-wall-clock-step"
+		case slotExplains:
+			// checked before the policy-delete explanation: a delete in a span
+			// that only exceeds the limit across a slot expiry is incidental
+			suffix = "window-straddles-slot-expiry"
 		case j.deleteExplains(d, h, admits, t, tkey, from, form, L):
 			// the admits after the last policy delete alone respect the limit
 			suffix = "after-policy-delete"
@@ -347,22 +362,10 @@ func (j *judgeCtx) judgeAdmits(tok int64, d *dimension, h *history, admits, reqs
 			// policy change that set the limit ran concurrently with a request
 			suffix = "stale-limit-after-update-concurrent-with-request"
 		default:
-			if d.rate && slot > 0 && slot < d.w {
-				s2, a2, _, _ := count(d.w - slot)
-				c2 := s2
-				if form == "set" {
-					c2 = a2
-				}
-				if c2 <= L {
-					suffix = "window-straddles-slot-expiry"
-				}
-			}
-			if suffix == "" {
-				if !h.constIn(from, t.e) {
-					suffix = "after-limit-change"
-				} else {
-					suffix = "constant-limit"
-				}
+			if !h.constIn(from, t.e) {
+				suffix = "after-limit-change"
+			} else {
+				suffix = "constant-limit"
 			}
 		}
 		var rule, what string
